@@ -467,7 +467,9 @@ pub fn parse_block_scoped_function(exp: &Pair<Rule>) -> Result<PreExp, Compilati
     let span = InputSpan::from_pair(exp);
     let inner = exp.clone().into_inner();
     let name = inner.find_first_tagged("name");
-    let body = inner.find_first_tagged("body");
+    //find_first_tagged also looks inside of the children, and the range comes before the body:
+    //a block function or a graph in the range, sum(i in 0..min{2,3}) { .. }, has a body too
+    let body = inner.clone().find(|p| p.as_node_tag() == Some("body"));
     let iters = inner.find_first_tagged("range");
     if name.is_none() || iters.is_none() || body.is_none() {
         return err_unexpected_token!("found {}, expected scoped block function", exp);
